@@ -284,8 +284,15 @@ func run(sc scenario, out *outcome) {
 	if sc.local {
 		// a local caller uses the peer's bootstrap capability; the peer never
 		// answers it, so only connection shutdown (or Close) can end the call
+		lctx, lcancel := context_WithCancel()
+		cancelDone := false
+		localDone2 := &cancelDone
+		vsched.GoNamed("canceller", func() {
+			lcancel() // its position is a scheduling choice
+			*localDone2 = true
+		})
 		vsched.GoNamed("local", func() {
-			ctx := context_Background()
+			ctx := lctx
 			bc := s.Conn.Bootstrap(ctx)
 			ans, rel := bc.SendCall(ctx, capnp.Send{Method: capnp.Method{InterfaceID: rpcsim.IfaceID, MethodID: rpcsim.MethodEcho}, ArgsSize: capnp.ObjectSize{DataSize: 8},
 				PlaceArgs: func(a capnp.Struct) error { a.SetUint32(0, 900); return nil }})
